@@ -272,39 +272,7 @@ func c10ConfChange(c *Check) {
 			}
 		}
 	}
-	// --- C10.L: auto-leave
-	rAppliedTo := p.Method("raft", "raft", "appliedTo")
-	step := p.Method("raft", "raft", "Step")
-	toMsg := p.Func("raft", "confChangeToMsg")
-	autoLeaveF := p.Field("tracker", "Config", "AutoLeave")
-	stateF := p.Field("raft", "raft", "state")
-	leader := p.ConstVal("raft", "StateLeader")
-	if rAppliedTo != nil && step != nil && toMsg != nil {
-		afi := p.Info(rAppliedTo)
-		ar := afi.Sym(rAppliedTo.Params[0])
-		n := 0
-		for _, ci := range p.CallsIn(rAppliedTo, step) {
-			n++
-			m := afi.Sym(callArgs(ci)[1])
-			okM := m.K == KExtract && m.Idx == 0 && m.Args[0].K == KCall && m.Args[0].Fn == toMsg && m.Args[0].Args[0].K == KNil
-			c.Result(okM, "C10.L", "auto-leave proposal", fnName(rAppliedTo), p.site(ci), "Step(confChangeToMsg(nil)): an empty V2 change = leave joint", m.Key())
-			f := afi.FactsAt(ci)
-			okAuto := f.HasBool(func(s *Sym) bool { return s.K == KField && s.Fld == autoLeaveF }, true) != nil
-			okLeader := f.ImpliesCmp(FieldOf(ar, stateF), "==", constSym(leader))
-			okApplied := false
-			for _, a := range f.Tested {
-				if a.K == ALe {
-					for k, s := range a.L.S {
-						if s.K == KField && s.Fld == pendingF && a.L.T[k] == 1 {
-							okApplied = true // pendingConfIndex - newApplied <= 0
-						}
-					}
-				}
-			}
-			c.Result(okAuto && okLeader && okApplied, "C10.L", "auto-leave only by the leader once the joint change is applied", fnName(rAppliedTo), p.site(ci), "AutoLeave && newApplied >= pendingConfIndex && state == StateLeader", strings.Join(f.Describe(), "; "))
-		}
-		c.Result(n == 1, "C10.L", "auto-leave edge exists", fnName(rAppliedTo), p.Pos(rAppliedTo.Pos()), "raft.appliedTo proposes the leave-joint change", fmt.Sprint(n))
-	}
+	c10AutoLeave(c)
 	// --- C10.E: transition predicates of ConfChangeV2
 	c10Transitions(c)
 }
@@ -469,5 +437,44 @@ func c10Hup(c *Check) {
 			}
 		}
 		c.Result(seen[cc1] && seen[cc2], "C10.H", "unapplied scan matches both conf-change entry types", fnName(hasUnapplied), p.Pos(hasUnapplied.Pos()), "EntryConfChange and EntryConfChangeV2", fmt.Sprint(seen))
+	}
+}
+
+// C10.L — automatic exit from a joint configuration.
+func c10AutoLeave(c *Check) {
+	p := c.P
+	pendingF := p.Field("raft", "raft", "pendingConfIndex")
+	// --- C10.L: auto-leave
+	rAppliedTo := p.Method("raft", "raft", "appliedTo")
+	step := p.Method("raft", "raft", "Step")
+	toMsg := p.Func("raft", "confChangeToMsg")
+	autoLeaveF := p.Field("tracker", "Config", "AutoLeave")
+	stateF := p.Field("raft", "raft", "state")
+	leader := p.ConstVal("raft", "StateLeader")
+	if rAppliedTo != nil && step != nil && toMsg != nil {
+		afi := p.Info(rAppliedTo)
+		ar := afi.Sym(rAppliedTo.Params[0])
+		n := 0
+		for _, ci := range p.CallsIn(rAppliedTo, step) {
+			n++
+			m := afi.Sym(callArgs(ci)[1])
+			okM := m.K == KExtract && m.Idx == 0 && m.Args[0].K == KCall && m.Args[0].Fn == toMsg && m.Args[0].Args[0].K == KNil
+			c.Result(okM, "C10.L", "auto-leave proposal", fnName(rAppliedTo), p.site(ci), "Step(confChangeToMsg(nil)): an empty V2 change = leave joint", m.Key())
+			f := afi.FactsAt(ci)
+			okAuto := f.HasBool(func(s *Sym) bool { return s.K == KField && s.Fld == autoLeaveF }, true) != nil
+			okLeader := f.ImpliesCmp(FieldOf(ar, stateF), "==", constSym(leader))
+			okApplied := false
+			for _, a := range f.Tested {
+				if a.K == ALe {
+					for k, s := range a.L.S {
+						if s.K == KField && s.Fld == pendingF && a.L.T[k] == 1 {
+							okApplied = true // pendingConfIndex - newApplied <= 0
+						}
+					}
+				}
+			}
+			c.Result(okAuto && okLeader && okApplied, "C10.L", "auto-leave only by the leader once the joint change is applied", fnName(rAppliedTo), p.site(ci), "AutoLeave && newApplied >= pendingConfIndex && state == StateLeader", strings.Join(f.Describe(), "; "))
+		}
+		c.Result(n == 1, "C10.L", "auto-leave edge exists", fnName(rAppliedTo), p.Pos(rAppliedTo.Pos()), "raft.appliedTo proposes the leave-joint change", fmt.Sprint(n))
 	}
 }
